@@ -173,6 +173,15 @@ def reuse_history(kind, a, b):
     """call history 'same argument object, edited in place between two calls': the second call must
     return what a fresh copy of the edited value returns.  Returns a problem string or None."""
     import implrun
+    implrun.RAW_ARGS = True          # the argument object itself reaches the implementation (no re-shaping on the way)
+    try:
+        return _reuse_history(kind, a, b)
+    finally:
+        implrun.RAW_ARGS = False
+
+
+def _reuse_history(kind, a, b):
+    import implrun
     if kind == "loader":
         f = lambda d: js(implrun.enc_load(d)[0][:2])
         key = "desc"
